@@ -61,9 +61,6 @@ Proof.
     rewrite T. reflexivity.
 Qed.
 
-(* ... and one whose open handler does nothing but answer "do not recurse" /
-   has no children contributes nothing; used for the fallbacks *)
-
 (* ================================================================== *)
 (* M1: note references                                                  *)
 (* ================================================================== *)
